@@ -40,6 +40,33 @@ CHECKS.update({
  "C08": ("exploration", "property-based testing (Hypothesis): metamorphic differential across representation qualifiers, plus reference-model oracle (naive evaluator with eqrel := equivalence closure) for eqrel relations read in every binding pattern",
          "No output difference when every relation's representation is redrawn from {default, btree, brie, btree_delete}, and every reading rule over a generated eqrel relation (all binding patterns, negation, count, self-join, probes at domain extremes) returns exactly the closure computed by the reference evaluator; a search, not a proof.",
          "Interpreter back end (where brie falls back to btree; compiled representations are exercised by C02's bundles and the structures by C25-C28); known finding F4 (eqrel element -2^31) excluded and re-probed.", "4/C08"),
+ "C03": ("exploration", "property-based testing (Hypothesis): metamorphic differential -j1 vs -jN under a seeded schedule-perturbation hook",
+         "Outputs at -jN (N in 2..16, seeded yields/sleeps injected at every lock, CAS and parallel-loop hook point) equal the -j1 outputs on generated programs whose RAM contains PARALLEL operations over relations of hundreds to thousands of tuples; a search over OS schedules, not schedule control.",
+         "Whole-program runs cannot be serialised (OpenMP barriers): interleavings are sampled, a rare race may be missed; the data structures underneath are schedule-controlled in C25-C31. Compiled executables only in the thorough tier.", "4/C03"),
+ "C10": ("exploration", "property-based testing (Hypothesis): validity predicate (functional / sound / maximal) over the final database, with the rule firing of the reference evaluator as derivability oracle",
+         "For generated choice-domain programs (single, multiple, composite keys; recursive definitions; readers) every run at -j1..8 under schedule perturbation yields choice relations that are functional on every declared key, contain only tuples derivable from the final database, miss only tuples that clash with a present one, and all dependent relations equal the reference evaluation given the chosen tuples.",
+         "Interpreter back end in the quick tier; schedules are perturbed, not controlled; T(D) comes from dlref's rule firing.", "4/C10"),
+ "C11": ("exploration", "property-based testing (Hypothesis): invariants of the result (no dominated tuple, subset of the unsubsumed reference result), metamorphic -j1 vs -jN, and for monotone cost programs equality with the minimal elements of the reference result",
+         "For generated subsumptive relations whose dominance is a strict partial order by construction: no final tuple is dominated, R is a subset of the reference evaluation without subsumption, -j1 and -jN agree, and shortest-distance-style programs give exactly the minimal tuples.",
+         "Interpreter back end in the quick tier; U computed by dlref; schedules perturbed, not controlled.", "4/C11"),
+ "C13": ("exploration", "property-based testing (Hypothesis): paired well-formed / ill-formed programs with a by-construction verdict (one injected defect of a known class)",
+         "Every generated well-formed program is accepted and runs; every program with one injected stratification / groundedness / type defect is rejected with exit 1, an Error diagnostic, the abort line and no output file, over thousands of pairs covering 10 defect kinds.",
+         "Defect kinds are limited to those that are ill-formed by the language rules (no leniency cases); diagnostic texts are classified, not asserted.", "4/C13"),
+ "C15": ("exploration", "property-based testing (Hypothesis): round trip print -> parse -> print (fixpoint, byte equality) plus differential execution of the printed program",
+         "For generated programs decorated with rarely printed constructs the printed AST parses again, printing is a byte-exact fixpoint and the printed program computes the same outputs; five already-broken printers (F5, F9-F12) are excluded by construction and re-probed.",
+         "Interpreter back end; constructs of the five recorded findings are not in the campaign.", "4/C15"),
+ "C16": ("exploration", "property-based testing (Hypothesis): reference-model oracle (own textual expansion of generated component forests) compared output by output",
+         "Generated component programs (type parameters, single/multiple inheritance, overrides, nested and repeated instantiation, outer readers) produce exactly the outputs of the flat program obtained by this check's own expansion, and are accepted iff the expansion is.",
+         "The expansion model is this check's reading of the component semantics; interpreter back end.", "4/C16"),
+ "C18": ("exploration", "property-based testing (Hypothesis): boundary-directed literal grammar judged by an independent arbitrary-precision reader with fixed accept / reject / lenient verdicts",
+         "Canonical in-range literals load with exactly the written value; malformed, garbage-suffixed, empty and out-of-range fields (and too few columns) fail with exit 1 and an error naming file and line; lenient spellings are either rejected or stored correctly; the same range rule holds for constants in program text; no crash or hang.",
+         "End-to-end through the interpreter's .input path; the in-process reader harness of the design (libFuzzer on raw bytes) is not built.", "4/C18"),
+ "C22": ("exploration", "property-based testing (Hypothesis): uniqueness invariant over all autoinc columns plus exact evaluation counts from companion rules, under thread counts and schedule perturbation",
+         "All autoinc() values of a run are pairwise distinct and every autoinc relation holds exactly one tuple per rule evaluation, for generated programs with thousands of parallel evaluations at -j1..16 under perturbation.",
+         "A lost update needs a real collision: detection is probabilistic (volume x threads); interpreter back end in the quick tier.", "4/C22"),
+ "C24": ("exploration", "generated value matrix (seeded, boundary pools x random) with a three-way oracle: interpreter vs compiled vs independent reference table of the documented semantics",
+         "Every intrinsic operator, constraint and conversion in every overload returns the reference value on thousands of argument tuples from boundary pools, identically in the interpreter and in compiled code (92 operator cells, each exercised >= 20 times).",
+         "Argument tuples outside an operator's defined domain are filtered by the reference before evaluation; ord() excluded; regex subset; seeded Python RNG (no shrinking: the failing tuples are listed).", "4/C24"),
 })
 
 def entry(pid):
